@@ -4,5 +4,6 @@
 
 pub mod dump;
 pub mod fixture;
+pub mod oracle;
 
 pub use fixture::{Mode, Nx, Outcome, Stmt, Who, World};
